@@ -1,13 +1,522 @@
-// Package c06 is the correspondence harness for property C06 (placeholder).
+// Package c06 is the correspondence harness for property C06: subscribed plugins get each
+// event once, in index order, in one common order.
+//
+// Three streams, all against a real Adaptation with real stub-connected plugins (package rt):
+//
+//	masks  – EXHAUSTIVE: every mask 0..8191 configured on a plugin (batches of 100 with
+//	         distinct two-digit indices in shuffled registration order; the 0 mask both through
+//	         the stub and as a literal 0 in the Configure reply), one request of each of the 13
+//	         kinds per batch;
+//	random – 1..8 plugins, indices drawn WITH duplicates, random masks, vetoing and clashing
+//	         plugins, random interleaving of registrations, disconnects and the 13 calls;
+//	conc   – 2..16 caller goroutines issuing mixed requests while late plugins register; every
+//	         handler stamps (seq, plugin, request, event) from one atomic counter.
 package c06
 
 import (
+	"encoding/json"
 	"errors"
+	"fmt"
+	"math/rand"
+	"os"
+	"path/filepath"
+	"runtime"
+	"sync"
+	"sync/atomic"
+	"time"
 
+	"verifh/c06/rt"
 	"verifh/internal/hx"
 	"verifh/internal/lineio"
 )
 
+// ---------------------------------------------------------------------------------------
+// case formats
+
+// Op is one step of a sequential case.
+type Op struct {
+	Op     string   `json:"op"` // reg | req | stop
+	Plugin *rt.Spec `json:"plugin"`
+	Ev     int      `json:"ev"`
+	ID     string   `json:"id"`
+	Name   string   `json:"name"`
+}
+
+type SeqIn struct {
+	Kind   string `json:"kind"` // "seq"
+	Stream string `json:"stream"`
+	Ops    []Op   `json:"ops"`
+}
+
+type Inv struct {
+	P string `json:"p"`
+	R string `json:"r"`
+	E int    `json:"e"`
+}
+
+type OpObs struct {
+	Op  string     `json:"op"`
+	OK  bool       `json:"ok"`
+	Log []Inv      `json:"log"`
+	Res *rt.Result `json:"res"`
+}
+
+type SeqObs struct {
+	Ops  []OpObs `json:"ops"`
+	Fail string  `json:"fail"` // harness-level failure (registration refused, timeout): "" normally
+}
+
+type Req struct {
+	Ev int    `json:"ev"`
+	ID string `json:"id"`
+}
+
+// Leave: an early plugin that disconnects when its handler is invoked for the After-th time.
+type Leave struct {
+	Name  string `json:"name"`
+	After int    `json:"after"`
+}
+
+type ConcIn struct {
+	Kind    string    `json:"kind"` // "conc"
+	Plugins []rt.Spec `json:"plugins"`
+	Late    []rt.Spec `json:"late"`
+	Leaving []Leave   `json:"leaving"`
+	Callers [][]Req   `json:"callers"`
+	Procs   int       `json:"procs"`
+}
+
+type ConcObs struct {
+	Hist    []rt.Stamp    `json:"hist"`
+	Results [][]rt.Result `json:"results"`
+	Fail    string        `json:"fail"`
+}
+
+// ---------------------------------------------------------------------------------------
+// execution
+
+func invs(st []rt.Stamp) []Inv {
+	out := make([]Inv, 0, len(st))
+	for _, s := range st {
+		out = append(out, Inv{s.Plugin, s.Req, s.Ev})
+	}
+	return out
+}
+
+func runSeq(dir string, in *SeqIn) (obs SeqObs) {
+	obs.Ops = []OpObs{}
+	r, err := rt.NewRuntime(dir, nil)
+	if err != nil {
+		obs.Fail = "runtime: " + err.Error()
+		return
+	}
+	defer r.Close()
+	byName := map[string]*rt.Plugin{}
+	degraded := false
+	for _, op := range in.Ops {
+		o := OpObs{Op: op.Op, Log: []Inv{}}
+		switch op.Op {
+		case "reg":
+			p, err := r.Connect(*op.Plugin, rt.ConnectOpts{NoWait: degraded, Wait: 3 * time.Second})
+			o.OK = err == nil
+			switch {
+			case errors.Is(err, rt.ErrNotActivated):
+				// registered and synchronised, yet no probe of any subscribed kind reaches it: go on
+				// without waiting; the requests that follow show what is (not) delivered
+				degraded = true
+				byName[p.Name] = p
+			case err != nil:
+				obs.Fail = "reg: " + err.Error()
+				return
+			default:
+				byName[p.Name] = p
+			}
+			if degraded {
+				time.Sleep(3 * time.Millisecond)
+			}
+			r.Rec.Take()
+		case "stop":
+			if p := byName[op.Name]; p != nil {
+				p.Stop()
+				o.OK = true
+			}
+		case "req":
+			res := r.Do(op.Ev, op.ID)
+			o.Res = &res
+			o.OK = true
+			o.Log = invs(r.Rec.Take())
+		}
+		obs.Ops = append(obs.Ops, o)
+	}
+	return
+}
+
+func runConc(dir string, in *ConcIn) (obs ConcObs) {
+	obs.Hist = []rt.Stamp{}
+	obs.Results = make([][]rt.Result, len(in.Callers))
+	if in.Procs > 0 {
+		defer runtime.GOMAXPROCS(runtime.GOMAXPROCS(in.Procs))
+	}
+	r, err := rt.NewRuntime(dir, nil)
+	if err != nil {
+		obs.Fail = "runtime: " + err.Error()
+		return
+	}
+	defer r.Close()
+	yield := func(*rt.Plugin, int, string) error { runtime.Gosched(); return nil }
+	// A leaving plugin disconnects by itself, from inside its handler, when it is invoked for
+	// the After-th time (stamp already taken; its reply is lost with the connection). Disconnecting from outside while a request is on its way would
+	// let the handler start after the runtime has given up on it: a stamp that says nothing
+	// about when the relay took place.
+	for _, s := range in.Plugins {
+		hook := yield
+		for _, l := range in.Leaving {
+			if l.Name == s.Name {
+				var n atomic.Int64
+				after := int64(l.After)
+				if after < 1 {
+					after = 1
+				}
+				hook = func(p *rt.Plugin, ev int, req string) error {
+					runtime.Gosched()
+					if n.Add(1) == after {
+						// synchronously: when this returns the connection is gone, the reply cannot be
+						// sent, and (the runtime being inside this very call) nothing else is on its way
+						p.Stop()
+					}
+					return nil
+				}
+			}
+		}
+		if _, err := r.Connect(s, rt.ConnectOpts{Hook: hook}); err != nil {
+			obs.Fail = "reg: " + err.Error()
+			return
+		}
+	}
+	r.Rec.Take()
+	var wg sync.WaitGroup
+	start := make(chan struct{})
+	for i, reqs := range in.Callers {
+		obs.Results[i] = make([]rt.Result, len(reqs))
+		wg.Add(1)
+		go func(i int, reqs []Req) {
+			defer wg.Done()
+			<-start
+			for j, q := range reqs {
+				t0 := r.Rec.Tick()
+				res := r.Do(q.Ev, q.ID)
+				res.T0, res.T1 = t0, r.Rec.Tick()
+				obs.Results[i][j] = res
+			}
+		}(i, reqs)
+	}
+	var lateErr error
+	wg.Add(1)
+	go func() {
+		defer wg.Done()
+		<-start
+		for _, s := range in.Late {
+			// the probes WaitActive sends are requests like any other, concurrent with the callers'
+			if _, err := r.Connect(s, rt.ConnectOpts{Hook: yield}); err != nil {
+				lateErr = err
+				return
+			}
+		}
+	}()
+	close(start)
+	done := make(chan struct{})
+	go func() { wg.Wait(); close(done) }()
+	select {
+	case <-done:
+	case <-time.After(60 * time.Second):
+		obs.Fail = "blocked"
+		return
+	}
+	if lateErr != nil {
+		obs.Fail = "reg: " + lateErr.Error()
+	}
+	obs.Hist = r.Rec.Take()
+	return
+}
+
+// ---------------------------------------------------------------------------------------
+// generators
+
+const allEv = rt.NumEvents
+
+func idx2(n int) string { return fmt.Sprintf("%02d", n%100) }
+
+func genMasks(o *hx.Opts) []*SeqIn {
+	rnd := o.Rand(601)
+	var cases []*SeqIn
+	const B = 100
+	masks := make([]uint32, 0, 8192+8)
+	for m := uint32(0); m <= rt.ValidMask; m++ {
+		masks = append(masks, m)
+	}
+	type ent struct {
+		m   uint32
+		raw bool
+	}
+	ents := make([]ent, 0, len(masks)+B)
+	for _, m := range masks {
+		ents = append(ents, ent{m, false})
+	}
+	// the literal-0 reply and a seeded sample of other masks through the raw plugin service
+	ents = append(ents, ent{0, true})
+	for pad := (B - len(ents)%B) % B; pad > 0; pad-- {
+		ents = append(ents, ent{uint32(rnd.Intn(int(rt.ValidMask) + 1)), true})
+	}
+	for b := 0; b*B < len(ents); b++ {
+		chunk := ents[b*B : min(len(ents), (b+1)*B)]
+		in := &SeqIn{Kind: "seq", Stream: "masks"}
+		idxs := rnd.Perm(100)
+		order := rnd.Perm(len(chunk))
+		for _, k := range order {
+			e := chunk[k]
+			in.Ops = append(in.Ops, Op{Op: "reg", Plugin: &rt.Spec{Idx: idx2(idxs[k]),
+				Name: fmt.Sprintf("m%d%s", e.m, map[bool]string{true: "r", false: ""}[e.raw]), Mask: e.m, Raw: e.raw}})
+		}
+		for _, ev := range rnd.Perm(allEv) {
+			in.Ops = append(in.Ops, Op{Op: "req", Ev: ev + 1, ID: fmt.Sprintf("b%d-e%d", b, ev+1)})
+		}
+		cases = append(cases, in)
+	}
+	return cases
+}
+
+func randMask(rnd *rand.Rand) uint32 {
+	switch rnd.Intn(6) {
+	case 0:
+		return 0
+	case 1:
+		return rt.ValidMask
+	case 2:
+		return 1 << uint(rnd.Intn(allEv))
+	case 3:
+		return uint32(rnd.Intn(int(rt.ValidMask))+1) & uint32(rnd.Intn(int(rt.ValidMask))+1)
+	default:
+		return uint32(rnd.Intn(int(rt.ValidMask) + 1))
+	}
+}
+
+var idxPool = []string{"00", "00", "05", "10", "10", "10", "50", "99", "99", "09", "90"}
+
+func randIdx(rnd *rand.Rand) string {
+	if rnd.Intn(3) == 0 {
+		return idx2(rnd.Intn(100))
+	}
+	return idxPool[rnd.Intn(len(idxPool))]
+}
+
+func randSpec(rnd *rand.Rand, n int, faulty bool) *rt.Spec {
+	s := &rt.Spec{Idx: randIdx(rnd), Name: fmt.Sprintf("p%d", n), Mask: randMask(rnd), Raw: rnd.Intn(5) == 0}
+	if faulty {
+		switch rnd.Intn(8) {
+		case 0:
+			s.Veto = 1 << uint(rnd.Intn(allEv))
+		case 1:
+			s.Veto = uint32(rnd.Intn(int(rt.ValidMask) + 1))
+		case 2:
+			s.Clash = 1<<(rt.EvCreate-1) | 1<<(rt.EvUpdate-1) | 1<<(rt.EvStop-1)
+		}
+	}
+	return s
+}
+
+func genRandom(o *hx.Opts, i int) *SeqIn {
+	rnd := o.Rand(60200000 + int64(i))
+	in := &SeqIn{Kind: "seq", Stream: "random"}
+	n := 0
+	var live []string
+	reg := func() {
+		s := randSpec(rnd, n, true)
+		n++
+		in.Ops = append(in.Ops, Op{Op: "reg", Plugin: s})
+		live = append(live, s.Name)
+	}
+	for k := 1 + rnd.Intn(4); k > 0; k-- {
+		reg()
+	}
+	steps := 8 + rnd.Intn(30)
+	if rnd.Intn(4) == 0 {
+		// a whole lifecycle, in order
+		for _, ev := range []int{rt.EvRunPod, rt.EvCreate, rt.EvPostCreate, rt.EvStart, rt.EvPostStart, rt.EvUpdate,
+			rt.EvPostUpdate, rt.EvUpdatePod, rt.EvPostUpdatePod, rt.EvStop, rt.EvRemove, rt.EvStopPod, rt.EvRemovePod} {
+			in.Ops = append(in.Ops, Op{Op: "req", Ev: ev, ID: fmt.Sprintf("r%d-l%d", i, ev)})
+		}
+	}
+	for k := 0; k < steps; k++ {
+		switch x := rnd.Intn(20); {
+		case x == 0 && n < 8:
+			reg()
+		case x == 1 && len(live) > 1:
+			j := rnd.Intn(len(live))
+			in.Ops = append(in.Ops, Op{Op: "stop", Name: live[j]})
+			live = append(live[:j], live[j+1:]...)
+		default:
+			in.Ops = append(in.Ops, Op{Op: "req", Ev: 1 + rnd.Intn(allEv), ID: fmt.Sprintf("r%d-%d", i, k)})
+		}
+	}
+	return in
+}
+
+func genConc(o *hx.Opts, i int) *ConcIn {
+	rnd := o.Rand(60300000 + int64(i))
+	in := &ConcIn{Kind: "conc", Plugins: []rt.Spec{}, Late: []rt.Spec{}}
+	n := 0
+	for k := 1 + rnd.Intn(6); k > 0; k-- {
+		s := randSpec(rnd, n, rnd.Intn(4) == 0)
+		// keep most plugins widely subscribed so that requests meet at several plugins
+		if rnd.Intn(3) != 0 {
+			s.Mask = 0
+		}
+		in.Plugins = append(in.Plugins, *s)
+		n++
+	}
+	for k := rnd.Intn(3); k > 0; k-- {
+		s := randSpec(rnd, n, false)
+		in.Late = append(in.Late, *s)
+		n++
+	}
+	callers := 2 + rnd.Intn(15)
+	for c := 0; c < callers; c++ {
+		var reqs []Req
+		for k := 3 + rnd.Intn(8); k > 0; k-- {
+			ev := 1 + rnd.Intn(allEv)
+			if rnd.Intn(2) == 0 {
+				ev = []int{rt.EvCreate, rt.EvUpdate, rt.EvStop}[rnd.Intn(3)]
+			}
+			reqs = append(reqs, Req{Ev: ev, ID: fmt.Sprintf("c%d-%d", c, len(reqs))})
+		}
+		in.Callers = append(in.Callers, reqs)
+	}
+	in.Procs = []int{0, 0, 1, 2, 4}[rnd.Intn(5)]
+	in.Leaving = []Leave{}
+	if len(in.Plugins) > 1 && rnd.Intn(3) == 0 {
+		for k := 1 + rnd.Intn(2); k > 0; k-- {
+			p := in.Plugins[rnd.Intn(len(in.Plugins))]
+			dup := false
+			for _, l := range in.Leaving {
+				dup = dup || l.Name == p.Name
+			}
+			// vetoing plugins stay: a vanished veto would make later requests succeed either way
+			if !dup && p.Veto == 0 && p.Clash == 0 {
+				in.Leaving = append(in.Leaving, Leave{Name: p.Name, After: 1 + rnd.Intn(25)})
+			}
+		}
+	}
+	return in
+}
+
+// ---------------------------------------------------------------------------------------
+
+func execCase(dir string, in interface{}) interface{} {
+	d, err := os.MkdirTemp(dir, "c")
+	if err != nil {
+		return SeqObs{Fail: err.Error()}
+	}
+	defer os.RemoveAll(d)
+	switch in := in.(type) {
+	case *SeqIn:
+		return runSeq(d, in)
+	case *ConcIn:
+		return runConc(d, in)
+	}
+	return SeqObs{Fail: "unknown input"}
+}
+
+func decode(raw json.RawMessage) (interface{}, error) {
+	var k struct {
+		Kind string `json:"kind"`
+	}
+	if err := json.Unmarshal(raw, &k); err != nil {
+		return nil, err
+	}
+	switch k.Kind {
+	case "seq":
+		in := &SeqIn{}
+		return in, json.Unmarshal(raw, in)
+	case "conc":
+		in := &ConcIn{}
+		return in, json.Unmarshal(raw, in)
+	}
+	return nil, fmt.Errorf("unknown case kind %q", k.Kind)
+}
+
+// emit writes the cases in order; a worker that died or hung on a case is that case's
+// observation.
+func emit(w *lineio.Writer, jobs []*rt.Job) {
+	for _, j := range jobs {
+		var obs interface{} = j.Obs
+		switch {
+		case j.Crashed:
+			obs = map[string]interface{}{"fail": "crashed", "panic": j.Panic}
+		case j.Blocked:
+			obs = map[string]interface{}{"fail": "blocked", "panic": ""}
+		case j.Obs == nil:
+			obs = map[string]interface{}{"fail": "not run", "panic": ""}
+		}
+		w.Put(&lineio.Case{ID: j.ID, In: j.In, Obs: obs})
+	}
+}
+
 func Run(o *hx.Opts, w *lineio.Writer) error {
-	return errors.New("C06 harness not implemented")
+	rt.Quiet()
+	if len(filepath.Join(o.Scratch, "w123456", "scratch", "c0123456789", "n123456.sock")) > 100 {
+		// unix socket paths are limited; fall back to a short private directory
+		d, err := os.MkdirTemp("", "c06-")
+		if err != nil {
+			return err
+		}
+		defer os.RemoveAll(d)
+		o.Scratch = d
+	}
+	if rt.IsWorker(func(_ string, _ string, raw json.RawMessage) interface{} {
+		in, err := decode(raw)
+		if err != nil {
+			return SeqObs{Fail: err.Error()}
+		}
+		return execCase(o.Scratch, in)
+	}) {
+		return nil
+	}
+	if o.Replay != "" {
+		cases, err := hx.ReplayCases(o.Replay)
+		if err != nil {
+			return err
+		}
+		var jobs []*rt.Job
+		for _, c := range cases {
+			if _, err := decode(c.In); err != nil {
+				return err
+			}
+			jobs = append(jobs, &rt.Job{ID: c.ID, In: c.In})
+		}
+		err = rt.Dispatch(o.Scratch, "C06", "", jobs, 8, 4, 90*time.Second)
+		emit(w, jobs)
+		return err
+	}
+	var seq, conc []*rt.Job
+	if o.Budget <= 1 {
+		for i, in := range genMasks(o) {
+			seq = append(seq, &rt.Job{ID: fmt.Sprintf("masks-%d", i), In: in})
+		}
+	}
+	for i := 0; i < o.N(600, 15000); i++ {
+		seq = append(seq, &rt.Job{ID: fmt.Sprintf("random-%d", i), In: genRandom(o, i)})
+	}
+	for i := 0; i < o.N(150, 6000); i++ {
+		conc = append(conc, &rt.Job{ID: fmt.Sprintf("conc-%d", i), In: genConc(o, i)})
+	}
+	err := rt.Dispatch(o.Scratch, "C06", "", seq, 10, 6, 40*time.Second)
+	emit(w, seq)
+	// concurrent cases: each worker sets GOMAXPROCS for itself; fewer at a time so that the
+	// callers really run in parallel
+	err2 := rt.Dispatch(o.Scratch, "C06", "", conc, 10, 3, 90*time.Second)
+	emit(w, conc)
+	if err == nil {
+		err = err2
+	}
+	return err
 }
